@@ -38,6 +38,11 @@ var (
 		// Pointers must show up as text even if the user's attributes or
 		// diff driver mark the files as binary ("-diff", "binary").
 		"--text",
+		// The parser below relies on the default "a/" and "b/" prefixes,
+		// which diff.noprefix, diff.mnemonicPrefix, diff.srcPrefix and
+		// diff.dstPrefix in the user's configuration would change.
+		"--src-prefix=a/",
+		"--dst-prefix=b/",
 		"-G", "oid sha256:", // only diffs which include an lfs file SHA change
 		"-p",                             // include diff so we can read the SHA
 		"-U12",                           // Make sure diff context is always big enough to support 10 extension lines to get whole pointer
